@@ -1,0 +1,33 @@
+//go:build verif
+
+// Contracts for functions of nsqadmin that had none (round 4, area D; C17 / C18), checked by nsqvc. Comment-only file.
+// Uses validS / isErr / curOpts of zz_contracts_admin_verif.go; assumed library contracts: .trusted/r4d.spec.
+
+package nsqadmin
+
+// handleAdminActions (the notification pump, one goroutine for the life of the process): every notification taken from the
+// channel is POSTed once to the configured endpoint, and - whatever the endpoint does (down, refusing, answering garbage) - the
+// pump does not crash nsqadmin ("nsqadmin itself never crashes": a panic in this goroutine ends the process).
+//@ func (n *NSQAdmin) handleAdminActions()
+//@   props C18
+//@   requires n != nil
+//@   modifies r4DNotifyPosts, elems(byte)
+//@   loop 0
+//@     invariant[one-post-per-notification] r4DNotifyPosts - old(r4DNotifyPosts) == recvd(n.notifications) - old(recvd(n.notifications))
+
+// nodeHandler (the view of one nsqd): whatever the upstreams answered, an error answer is an http_api.Err - 502 without data when the
+// producer list or the node's stats cannot be had at all, 404 when no producer has that address.
+// No crash for any upstream answer: a null channel in the node's /stats (left in topic.Channels by GetNSQDStats) is the genuine
+// defect reported as safety[nil] at http.go:393 (replay nsqadmin_node_view_null_channel_test.go, fix c18_node_view_null_channel.patch).
+//@ func (s *httpServer) nodeHandler(w http.ResponseWriter, req *http.Request, ps httprouter.Params) (interface{}, error)
+//@   props C18
+//@   requires validS(s) && http_api.mServerReq(req)
+//@   ensures[error-is-502-or-404] result1 != nil ==> (iupstream502(result1) || isErr(result1, 404, "NODE_NOT_FOUND")) && result0 == nil
+//@   ensures[error-is-an-http-error] result1 != nil ==> dyntype(result1) == typetag("http_api.Err")
+//@   ensures[answer] result1 == nil ==> result0 != nil
+// ASSUMED (call protocol, as in topicHandler): the producers and per-topic objects that come back from the fan-out functions are
+// real objects (their workers append only non-nil ones; the workers' writes are not modelled in the parents).
+//@   loop 0
+//@     assume forall k int :: {topicStats[k]} 0 <= k && k < len(topicStats) ==> topicStats[k] != nil
+//@   loop 1
+//@     assume forall k int :: {topicStats[k]} 0 <= k && k < len(topicStats) ==> topicStats[k] != nil
